@@ -27,14 +27,14 @@ func init() {
 		},
 		Batches:  func(t string) int { return 16 },
 		Parallel: 8,
-		Rule: "one case = one run of 4 real validators over a lossy/reordering network in which 1-3 crash points are injected into correct validators: crash point = (k-th WAL operation after reaching a height, over round/lock/commit WALs) x mode (before the op / torn inside Sync with a byte prefix of the unsynced tail surviving / after the op, before what follows it e.g. the broadcast); each WAL file keeps its synced bytes plus a chosen prefix of its unsynced tail (0, 1..7 header bytes, exactly 8, mid-payload, all); the validator restarts from the crash image with the same key and block DB and the run continues. Quick: PRNG-sampled points; thorough: systematic sweep of op index 0..15 x 3 modes x 9 tear sizes. Monitor: (a) dictionary over every signed vote/proposal seen on the wire across all incarnations: same (validator, height, round, type) with different signed bytes = violation; (b) at send time each own vote/proposal must be covered by a completed Sync of the round WAL. Non-trivial = crash hit a validator that had already signed in that height and the restarted incarnation put a new signed message on the wire in the same height; distinct by (op, mode, tear class, wal).",
+		Rule: "one case = one run of 4 real validators over a lossy/reordering network in which 1-3 crash points are injected into correct validators: crash point = (k-th WAL operation after reaching a height, over round/lock/commit WALs) x mode (before the op / torn inside Sync with a byte prefix of the unsynced tail surviving / after the op, before what follows it e.g. the broadcast); each WAL file keeps its synced bytes plus a chosen prefix of its unsynced tail (0, 1..7 header bytes, exactly 8, mid-payload, all); the validator restarts from the crash image with the same key and block DB and the run continues. Quick: PRNG-sampled points; thorough: systematic sweep of op index 0..15 x 3 modes x 9 tear sizes. Monitor: (a) dictionary over every signed vote/proposal seen on the wire across all incarnations: same (validator, height, round, type) with different signed bytes = violation; (b) at send time each own vote/proposal must be covered by a completed Sync of the round WAL; (c) after every restart's recovery, every own vote/proposal the validator had put on the wire in the height it restarts in must still be readable from its round WAL. Tears include a zero-filled record tail (full-length record with wrong checksum). Non-trivial = crash hit a validator that had already signed in that height and the restarted incarnation put a new signed message on the wire in the same height; distinct by (op, mode, tear class, wal).",
 		MinNonTrivial: func(t string) int {
 			if t == ev.Thorough {
 				return 100
 			}
 			return 8
 		},
-		Required:    []string{"crashes", "restarts", "durable_before_send_checks", "sent_after_restart_same_height", "votes_seen"},
+		Required:    []string{"crashes", "restarts", "durable_before_send_checks", "remembered_after_recovery_checks", "sent_after_restart_same_height", "votes_seen"},
 		Assumptions: []string{"MapDB models a durable synchronous block DB (crashes inside block-DB writes are not simulated)", "crash granularity = WAL operation boundaries with byte-prefix tears", "WAL frame = 8-byte header + payload (checked against the file size at every Sync; a mismatch is reported)"},
 		TimeoutSec:  func(t string) int { if t == ev.Thorough { return 3000 }; return 420 },
 		Run:         run,
@@ -54,10 +54,10 @@ func makePlan(i int, r *rand.Rand, thorough bool) csnet.Options {
 		tb := tearBytes[k%len(tearBytes)]
 		victim := r.Intn(4)
 		h := int64(1 + r.Intn(2))
-		plan.Crashes = append(plan.Crashes, csnet.CrashSpec{Victim: victim, AtHeight: h, Point: csnet.CrashPoint{OpIndex: op, Mode: mode, TearBytes: tb}})
+		plan.Crashes = append(plan.Crashes, csnet.CrashSpec{Victim: victim, AtHeight: h, Point: csnet.CrashPoint{OpIndex: op, Mode: mode, TearBytes: tb, ZeroFill: r.Intn(2) == 0}})
 		// a second crash of the same validator in the same or next height: reaches
 		// "append after an unrepaired torn record"
-		plan.Crashes = append(plan.Crashes, c01.RandCrash(r, victim, h+int64(r.Intn(2))))
+		plan.Crashes = append(plan.Crashes, c01.RandCrash(r, victim, h+int64(r.Intn(3)/2)))
 		if r.Intn(2) == 0 {
 			plan.Crashes = append(plan.Crashes, c01.RandCrash(r, (victim+1)%4, h+1))
 		}
@@ -69,8 +69,16 @@ func makePlan(i int, r *rand.Rand, thorough bool) csnet.Options {
 			if k == 2 {
 				victim = (victim + 1) % 4
 			}
-			plan.Crashes = append(plan.Crashes, c01.RandCrash(r, victim, h))
-			h += int64(r.Intn(2))
+			cs := c01.RandCrash(r, victim, h)
+			if k == 0 && r.Intn(2) == 0 {
+				// a torn Sync with a zero-filled record tail, followed by another crash
+				// of the same validator: reaches "append behind an unrepaired record"
+				cs.Point.Mode = "torn"
+				cs.Point.ZeroFill = true
+				cs.Point.TearBytes = []int{9, 12, 20, 40}[r.Intn(4)]
+			}
+			plan.Crashes = append(plan.Crashes, cs)
+			h += int64(r.Intn(3) / 2)
 		}
 	}
 	opt.Rand = rand.New(rand.NewSource(r.Int63()))
